@@ -93,6 +93,12 @@ CHECKS.update({
          "Thread schedules are sampled by the OS, not enumerated (the crate has no synchronisation primitive to intercept); sequential order dependence is explored by generated histories only.", "4/C16"),
 })
 
+CHECKS.update({
+ "C17": ("exhaustive enumeration of the 31 feature subsets; differential testing of each subset build against the all-features build on a generated case file; export set from rustdoc JSON + rustc --extern probes",
+         "Exploration (exhaustive over configurations, sampled over inputs): every non-empty feature subset is built from /repo's working tree, must compile, must export exactly the selected items, and its evaluators must return bit-identical outcomes to the default build on the regression corpus plus 4000 (quick) / 200000 (thorough) generated expressions.",
+         "The all-features build is the behavioural reference (other properties check it against oracles); rustdoc JSON requires the nightly toolchain present in this image.", "4/C17"),
+})
+
 NOT_YET = {
 }
 
@@ -110,7 +116,7 @@ def main():
                 "thorough_cmd": "./check %s thorough" % pid,
                 "evidence_file": "/verif/evidence/%s.json" % pid,
                 "replay_cmd_template": "./check %s --replay {path}" % pid,
-                "engine": "scverif",
+                "engine": "special/c17.py + subset/ probe crate" if pid == "C17" else "scverif",
                 "level_claimed": {"category": "exploration", "text": text, "design_ref": "DESIGN.md section " + ref},
                 "level_note": note,
                 "technique": tech,
